@@ -36,3 +36,8 @@ claim("C10", "typed analysis of the reconstructed server runtime (return tables,
       "Structural: the emitted status and default-body tables, the error-hook typestate (no write after the hook wrote, no second WriteHeader, defaults on nil), one content-type dispatch table shared by all writers and the binder with a matching Content-Type header, the dotted violation path, the Go/TS client mapping of 400 and other failures (one content-type variable for request, header, response and error decoding), and the error interface of *Error messages. Byte-level bodies and arbitrary hook behaviour are not decided.",
       "errors.As semantics, http.ResponseWriter contract; TypeScript is read lexically.",
       "DESIGN.md 5/C10")
+
+claim("C17", "shared-state inventory over reconstructed emitted Go: package-variable write classification (sync.Once idiom), receiver-field and alias write analysis, captured-variable write analysis with effect summaries",
+      "Structural race-freedom argument: every package-level variable of every emitted unit is read-only or once-initialised; client methods and request-serving closures write only call-local state (no store to the receiver, no mutation of its maps through an alias, no write/reset of a variable captured from registration time); registration has no closure over reassigned per-method variables; shared per-route slices are never stored through. Linearizability of results and races inside user code or libraries are not decided.",
+      "sync.Once happens-before; protovalidate.Validator, http.Client, ServeMux and math/rand are safe for concurrent use.",
+      "DESIGN.md 5/C17")
